@@ -9,6 +9,7 @@
 package encenv
 
 import (
+	"crypto/rand"
 	"errors"
 	"io"
 	"sync"
@@ -102,6 +103,23 @@ func KitDecryptThen(src *Source, opts v1.DecryptOptions, after func()) (io.Reade
 	}
 	gate.Unlock()
 	return r, err
+}
+
+var randMu sync.Mutex
+
+// WithRandReader runs fn while crypto/rand.Reader (a package variable) is
+// replaced by r, and restores it. Calls are serialised; the caller must make
+// sure that nothing else that draws randomness runs in the process meanwhile
+// (the parts run these families in a sequential phase of their own).
+func WithRandReader(r io.Reader, fn func()) {
+	randMu.Lock()
+	old := rand.Reader
+	rand.Reader = r
+	defer func() {
+		rand.Reader = old
+		randMu.Unlock()
+	}()
+	fn()
 }
 
 // KitEncrypt is v1.Encrypt on a Source (no exclusive section is needed: the
